@@ -528,7 +528,7 @@ func (fc *funcCtx) nativeCall(st *State, ins ssa.Instruction, key string, callee
 		use(key + " appends its argument")
 		p, s := bufCell()
 		a := args[1].(Sc)
-		fc.store(st, p, Sc{app("gs.cat", s.T, a.T), SStr}, ins.Pos())
+		fc.store(st, p, Sc{catTerm(s.T, a.T), SStr}, ins.Pos())
 		return TupleV{Sc{app("gs.len", a.T), SInt}, IfaceV{Nil: "true", Tag: "0"}}, true, false
 	case "strings.Builder.WriteRune", "bytes.Buffer.WriteRune", "strings.Builder.WriteByte", "bytes.Buffer.WriteByte":
 		use(key + " appends one byte (ASCII only for runes)")
@@ -537,7 +537,12 @@ func (fc *funcCtx) nativeCall(st *State, ins ssa.Instruction, key string, callee
 		if strings.HasSuffix(key, "WriteRune") {
 			fc.oblige(st, "ascii", "WriteRune/"+fc.site(ins.Pos(), "call"), and(app("<=", "0", a.T), app("<", a.T, "128")), "WriteRune is modelled for ASCII only")
 		}
-		fc.store(st, p, Sc{app("gs.cat", s.T, app("gs.chr", a.T)), SStr}, ins.Pos())
+		one := app("gs.chr", a.T)
+		if c, err := strconv.Atoi(a.T); err == nil && c > 0 && c < 128 {
+			// a constant character is the one-letter literal, whichever call wrote it
+			one = fc.e.literal(string(rune(c)))
+		}
+		fc.store(st, p, Sc{catTerm(s.T, one), SStr}, ins.Pos())
 		if strings.HasSuffix(key, "WriteByte") {
 			return IfaceV{Nil: "true", Tag: "0"}, true, false
 		}
